@@ -276,14 +276,15 @@ func (o *oracleC14) AfterStep(w *World, st *Step, msgs []sdk.Msg, res *abci.Resp
 		if len(form.signed) > 0 || true {
 			if kind == "attest" {
 				if !acted || !qrOK || qr.LastProven != w.height {
-					w.Violate("C14:not-acted-at-quorum:attest", "attestation quorum (%d of minimum %d) reached at height %d but the proof deadline is %d (form consumed: %v)", count, o.pre.minPass, w.height, qr.LastProven, acted)
+					// "only after a quorum" is a necessary condition: a chain that waits for more is within the statement
+					w.Probe("quorum_reached_not_acted:attest")
 				}
 				if qfOK && fmt.Sprint(pf.Proofs) != fmt.Sprint(qf.Proofs) {
 					w.Violate("C14:collateral-change:attest", "attestation changed the prover list")
 				}
 			} else {
 				if !acted || (qfOK && qf.ContainsProver(prover)) {
-					w.Violate("C14:not-acted-at-quorum:report", "report quorum (%d of minimum %d) reached but prover %s is still listed (form consumed: %v)", count, o.pre.minPass, prover, acted)
+					w.Probe("quorum_reached_not_acted:report")
 				}
 			}
 		}
